@@ -47,27 +47,24 @@ type XCase struct {
 	ResignAt int     `json:"resign_at"` // the PD leader resigns before this step (-1 = never)
 }
 
-// known findings: see findings_test.go
-const (
-	keyGlobalBatch      = "C05/global-batch-first-timestamps-below-local"
-	keyGlobalConcurrent = "C05/concurrent-global-requests-same-timestamp"
-)
+// known finding: see findings_test.go
+const keyGlobalConcurrent = "C05/concurrent-global-requests-same-timestamp"
 
 // genCross: the quick tier runs ONE topology (2 dc-locations, chosen by the seed) in shard 0 only; the
-// thorough tier runs one topology in each of the shards 0..5 (1-3 dc-locations on 1-3 members, allocator
-// leaders co-located with the PD leader or not as the elections decide, optional PD leader resignation).
+// thorough tier runs one topology in every shard (1-3 dc-locations on 1-3 members, allocator leaders
+// co-located with the PD leader or not as the elections decide, optional PD leader resignation).
 func genCross(t *rapid.T) XCase {
 	shard := envInt("VERIF_SHARD", 0)
 	thorough := vkit.Thorough()
 	c := XCase{ResignAt: -1}
-	if (!thorough && shard != 0) || (thorough && shard >= 6) {
+	if !thorough && shard != 0 {
 		c.Skip = true
 		return c
 	}
 	if !thorough {
 		c.PDs = rapid.SampledFrom([][]int{{0, 1}, {1, 0}, {0, 1, 0}, {0, 1, 1}}).Draw(t, "pds")
 	} else {
-		c.PDs = rapid.SampledFrom([][]int{{0}, {0, 0}, {0, 1}, {0, 1, 0}, {0, 1, 1}, {0, 1, 2}, {0, 1, 2}}).Draw(t, "pds")
+		c.PDs = rapid.SampledFrom([][]int{{0}, {0, 0}, {0, 1}, {0, 1}, {0, 1, 0}, {0, 1, 0}, {0, 1, 1}, {0, 1, 1}, {0, 1, 2}, {0, 1, 2}, {0, 1, 2}}).Draw(t, "pds")
 	}
 	ndc := 0
 	for _, d := range c.PDs {
@@ -75,18 +72,27 @@ func genCross(t *rapid.T) XCase {
 			ndc = d + 1
 		}
 	}
-	nsteps := 70
+	nsteps := 240
 	if thorough {
-		nsteps = 160
+		nsteps = 900
 	}
-	nsteps = rapid.IntRange(nsteps/2, nsteps).Draw(t, "nsteps")
+	nsteps = rapid.IntRange(nsteps*2/3, nsteps).Draw(t, "nsteps")
 	counts := []int{1, 1, 1, 2, 3, 5, 10, 30}
 	for i := 0; i < nsteps; i++ {
-		if rapid.IntRange(0, 7).Draw(t, "pattern") == 0 {
-			// global, a few local timestamps right behind it, then a global batch: the batch must start above them
-			c.Steps = append(c.Steps, XStep{Par: []XReq{{DC: -1, N: 1}}})
-			c.Steps = append(c.Steps, XStep{Par: []XReq{{DC: rapid.IntRange(0, ndc-1).Draw(t, "dc"), N: uint32(rapid.IntRange(1, 3).Draw(t, "ln"))}}})
-			c.Steps = append(c.Steps, XStep{Par: []XReq{{DC: -1, N: uint32(rapid.SampledFrom([]int{5, 10, 30}).Draw(t, "gn"))}}})
+		if rapid.IntRange(0, 5).Draw(t, "pattern") == 0 {
+			// a global, k local timestamps right behind it, then a global of count n: the estimate of the second
+			// global lands below (n < k), exactly on (n == k) or above (n > k) the local allocator's position
+			k := rapid.SampledFrom([]int{1, 2, 3, 5, 10}).Draw(t, "k")
+			n := k
+			switch rapid.IntRange(0, 3).Draw(t, "rel") {
+			case 0:
+				n = rapid.SampledFrom([]int{1, 2, 5, 30}).Draw(t, "gn")
+			case 1:
+				n = k + 1
+			}
+			c.Steps = append(c.Steps, XStep{Par: []XReq{{DC: -1, N: 1}}},
+				XStep{Par: []XReq{{DC: rapid.IntRange(0, ndc-1).Draw(t, "dc"), N: uint32(k)}}},
+				XStep{Par: []XReq{{DC: -1, N: uint32(n)}}})
 			i += 2
 			continue
 		}
@@ -344,6 +350,129 @@ type xstream struct {
 	cancel context.CancelFunc
 }
 
+// xsession sends Tso requests on long-lived streams (one per worker slot and allocator) and stamps them.
+type xsession struct {
+	x       *xcluster
+	clock   int64
+	hmu     sync.Mutex
+	hist    []*xev
+	smu     sync.Mutex
+	streams map[string]*xstream // key: slot/dc
+}
+
+func newSession(x *xcluster) *xsession { return &xsession{x: x, streams: map[string]*xstream{}} }
+
+func (s *xsession) close() {
+	s.smu.Lock()
+	defer s.smu.Unlock()
+	for _, st := range s.streams {
+		st.stream.CloseSend()
+		st.cancel()
+	}
+	s.streams = map[string]*xstream{}
+}
+
+func (s *xsession) history() []*xev {
+	s.hmu.Lock()
+	defer s.hmu.Unlock()
+	h := append([]*xev(nil), s.hist...)
+	sort.Slice(h, func(i, j int) bool { return h[i].ID < h[j].ID })
+	return h
+}
+
+func (s *xsession) getStream(slot int, dc string) (*xstream, error) {
+	addr := s.x.target(dc)
+	if addr == "" {
+		return nil, fmt.Errorf("no allocator leader known for %s", dc)
+	}
+	k := fmt.Sprintf("%d/%s", slot, dc)
+	s.smu.Lock()
+	st := s.streams[k]
+	s.smu.Unlock()
+	if st != nil && st.addr == addr {
+		return st, nil
+	}
+	if st != nil {
+		st.stream.CloseSend()
+		st.cancel()
+	}
+	cc, err := s.x.conn(addr)
+	if err != nil {
+		return nil, err
+	}
+	ctx, cancel := context.WithCancel(context.Background())
+	ts, err := pdpb.NewPDClient(cc).Tso(ctx)
+	if err != nil {
+		cancel()
+		return nil, err
+	}
+	st = &xstream{addr: addr, stream: ts, cancel: cancel}
+	s.smu.Lock()
+	s.streams[k] = st
+	s.smu.Unlock()
+	return st, nil
+}
+
+func (s *xsession) dropStream(slot int, dc string) {
+	k := fmt.Sprintf("%d/%s", slot, dc)
+	s.smu.Lock()
+	if st := s.streams[k]; st != nil {
+		st.cancel()
+		delete(s.streams, k)
+	}
+	s.smu.Unlock()
+}
+
+// do sends one request of count n to the allocator of dc and records the stamped outcome.
+func (s *xsession) do(step, slot int, dc string, n uint32, id int) *xev {
+	ev := &xev{ID: id, Step: step, DC: dc, N: int64(n)}
+	defer func() {
+		s.hmu.Lock()
+		s.hist = append(s.hist, ev)
+		s.hmu.Unlock()
+	}()
+	st, err := s.getStream(slot, dc)
+	if err != nil {
+		ev.Send = atomic.AddInt64(&s.clock, 1)
+		ev.Err = err.Error()
+		return ev
+	}
+	req := &pdpb.TsoRequest{Header: &pdpb.RequestHeader{ClusterId: s.x.cid}, Count: n, DcLocation: dc}
+	type res struct {
+		resp *pdpb.TsoResponse
+		err  error
+	}
+	ch := make(chan res, 1)
+	ev.Send = atomic.AddInt64(&s.clock, 1)
+	go func() {
+		if err := st.stream.Send(req); err != nil {
+			ch <- res{nil, err}
+			return
+		}
+		resp, err := st.stream.Recv()
+		ch <- res{resp, err}
+	}()
+	var rr res
+	select {
+	case rr = <-ch:
+	case <-time.After(15 * time.Second):
+		rr = res{nil, fmt.Errorf("no response in 15s")}
+	}
+	ev.Recv = atomic.AddInt64(&s.clock, 1)
+	if rr.err != nil {
+		ev.Err = rr.err.Error()
+		s.dropStream(slot, dc)
+		return ev
+	}
+	ts := rr.resp.GetTimestamp()
+	if rr.resp.GetCount() != n {
+		ev.Err = fmt.Sprintf("response count %d for request count %d", rr.resp.GetCount(), n)
+		return ev
+	}
+	ev.Physical, ev.Logical, ev.Bits = ts.GetPhysical(), ts.GetLogical(), ts.GetSuffixBits()
+	return ev
+}
+
 func runCross(c XCase) (vkit.Info, error) {
 	var info vkit.Info
 	if c.Skip {
@@ -391,62 +520,11 @@ func runCross(c XCase) (vkit.Info, error) {
 			info.Class("allocator-leader-elsewhere")
 		}
 	}
-	excludeBatch := vkit.Known(keyGlobalBatch)
-	excludeConc := vkit.Known(keyGlobalConcurrent)
+	excludeConc := known(keyGlobalConcurrent)
 	excludedConc := 0
 
-	var clock int64
-	var hist []*xev
-	var hmu sync.Mutex
-	streams := map[string]*xstream{} // key: slot/dc
-	var smu sync.Mutex
-	defer func() {
-		for _, s := range streams {
-			s.stream.CloseSend()
-			s.cancel()
-		}
-	}()
-	getStream := func(slot int, dc string) (*xstream, error) {
-		addr := x.target(dc)
-		if addr == "" {
-			return nil, fmt.Errorf("no allocator leader known for %s", dc)
-		}
-		k := fmt.Sprintf("%d/%s", slot, dc)
-		smu.Lock()
-		s := streams[k]
-		smu.Unlock()
-		if s != nil && s.addr == addr {
-			return s, nil
-		}
-		if s != nil {
-			s.stream.CloseSend()
-			s.cancel()
-		}
-		cc, err := x.conn(addr)
-		if err != nil {
-			return nil, err
-		}
-		ctx, cancel := context.WithCancel(context.Background())
-		st, err := pdpb.NewPDClient(cc).Tso(ctx)
-		if err != nil {
-			cancel()
-			return nil, err
-		}
-		s = &xstream{addr: addr, stream: st, cancel: cancel}
-		smu.Lock()
-		streams[k] = s
-		smu.Unlock()
-		return s, nil
-	}
-	dropStream := func(slot int, dc string) {
-		k := fmt.Sprintf("%d/%s", slot, dc)
-		smu.Lock()
-		if s := streams[k]; s != nil {
-			s.cancel()
-			delete(streams, k)
-		}
-		smu.Unlock()
-	}
+	ses := newSession(x)
+	defer ses.close()
 	do := func(step, slot int, r XReq, id int) {
 		dc := tso.GlobalDCLocation
 		if r.DC >= 0 {
@@ -456,54 +534,7 @@ func runCross(c XCase) (vkit.Info, error) {
 		if n == 0 {
 			n = 1
 		}
-		if dc == tso.GlobalDCLocation && excludeBatch && n > 1 {
-			n = 1
-		}
-		ev := &xev{ID: id, Step: step, DC: dc, N: int64(n)}
-		defer func() {
-			hmu.Lock()
-			hist = append(hist, ev)
-			hmu.Unlock()
-		}()
-		s, err := getStream(slot, dc)
-		if err != nil {
-			ev.Send = atomic.AddInt64(&clock, 1)
-			ev.Err = err.Error()
-			return
-		}
-		req := &pdpb.TsoRequest{Header: &pdpb.RequestHeader{ClusterId: x.cid}, Count: n, DcLocation: dc}
-		type res struct {
-			resp *pdpb.TsoResponse
-			err  error
-		}
-		ch := make(chan res, 1)
-		ev.Send = atomic.AddInt64(&clock, 1)
-		go func() {
-			if err := s.stream.Send(req); err != nil {
-				ch <- res{nil, err}
-				return
-			}
-			resp, err := s.stream.Recv()
-			ch <- res{resp, err}
-		}()
-		var rr res
-		select {
-		case rr = <-ch:
-		case <-time.After(15 * time.Second):
-			rr = res{nil, fmt.Errorf("no response in 15s")}
-		}
-		ev.Recv = atomic.AddInt64(&clock, 1)
-		if rr.err != nil {
-			ev.Err = rr.err.Error()
-			dropStream(slot, dc)
-			return
-		}
-		ts := rr.resp.GetTimestamp()
-		if rr.resp.GetCount() != n {
-			ev.Err = fmt.Sprintf("response count %d for request count %d", rr.resp.GetCount(), n)
-			return
-		}
-		ev.Physical, ev.Logical, ev.Bits = ts.GetPhysical(), ts.GetLogical(), ts.GetSuffixBits()
+		ses.do(step, slot, dc, n, id)
 	}
 
 	id := 0
@@ -547,15 +578,12 @@ func runCross(c XCase) (vkit.Info, error) {
 		}
 		wg.Wait()
 	}
-	if excludeBatch {
-		info.Exclude(keyGlobalBatch)
-	}
 	if excludedConc > 0 {
 		info.Exclude(keyGlobalConcurrent)
 	}
 
 	// ---------------------------------------------------------------- oracle over the history
-	sort.Slice(hist, func(i, j int) bool { return hist[i].ID < hist[j].ID })
+	hist := ses.history()
 	var okEv []*xev
 	failed := 0
 	for _, e := range hist {
